@@ -151,6 +151,8 @@ pub enum Op {
     SweepRotation,
     /// move the clock to 1 ns before, onto and 1 ns after the deadline of the key, reading it with every variant each time
     DeadlineWalk { k: u8 },
+    /// inside a burst only: let the parked command worker execute exactly one queued command (the oldest)
+    StepWorker,
     /// park the command worker, issue the burst without awaiting, release, await everything
     Stall { burst: Vec<Op> },
 }
@@ -329,7 +331,7 @@ pub fn op_strategy(params: &GenParams) -> BoxedStrategy<Op> {
         choices.push((walk.max(1), key.clone().prop_map(|k| Op::DeadlineWalk { k }).boxed()));
     }
     if params.stall && stall > 0 {
-        let burst_op = prop_oneof![5 => writes, 1 => reads];
+        let burst_op = prop_oneof![10 => writes, 2 => reads, 2 => Just(Op::StepWorker)];
         choices.push((stall, prop::collection::vec(burst_op, 1..=6).prop_map(|burst| Op::Stall { burst }).boxed()));
     }
     proptest::strategy::Union::new_weighted(choices).boxed()
